@@ -29,7 +29,27 @@ claim("C17", "path-wise symbolic memo check, who-constructs / provenance checks 
       "task's printers share one storage. Global uniqueness over arbitrary annotations is not decided.",
       "DESIGN.md 3/C17 (I1-I4)")
 
-for _p in ["C02", "C03", "C04", "C05", "C06", "C07", "C08", "C09", "C10", "C13", "C14", "C16", "C18", "C20"]:
+claim("C09", "path enumeration of sibling implementations + inverse-table agreement (same defining sequence)",
+      "Decides: every get_group_id implementation handed out by the factory returns on every path a non-None group that it "
+      "registered in the group universe (so an ungroupable read lands under NA instead of aborting); the name->index table and the "
+      "index->name list of the grouped counters are built from the same ordered sequence; all increments use the read's own "
+      "group id and both renderings read one table. Per-feature sums and triple equality are value-level and not decided.",
+      "DESIGN.md 3/C09 (P1-P3)")
+
+claim("C18", "memo-key soundness by intra-procedural data+control dependence cones with reaching definitions; sibling contradiction rule",
+      "Decides history-independence of the cached flags structurally: for every lookup-or-compute memo held in an object attribute "
+      "(canonical_sites, strand_dict, gene_regions, scores, ...) the dependence cone of the stored value is covered by the key, "
+      "the owner object (whose consulted attributes are only set in constructors or together with a memo reset) and run constants; "
+      "all dinucleotide comparisons normalise case like get_intron_strand. Agreement of model strand with evidence is not decided.",
+      "DESIGN.md 3/C18 (K1-K2)")
+
+claim("C20", "effect summaries (in-place write / atomic publish / tolerant read) of every function on the shared cache paths, through helpers",
+      "Decides the half-written-cache clause structurally: every write of a $HOME/.config/IsoQuant/*.json path in the import closure "
+      "is an os.replace publish of a temp sibling, every json.load of one is inside handlers for missing/undecodable files, and no "
+      "exists()-guarded in-place creation remains. Lost updates and the mtime validation of cache entries are not decided.",
+      "DESIGN.md 3/C20 (A1-A3)")
+
+for _p in ["C02", "C03", "C04", "C05", "C06", "C07", "C08", "C10", "C13", "C14", "C16"]:
     na(_p, NOT_BUILT)
 
 na("C12", "equality of outputs across .gtf/.gtf.gz/.db, --complete_genedb and BAM partitions is determined by what gffutils "
